@@ -966,6 +966,19 @@ func h5PorcupineModel() porcupine.Model {
 					return false, st
 				}
 				return true, h5State{shape: st.shape, vals: in.Vals}
+			case "create":
+				// Create makes a zero-filled dataset where there is none, accepts an existing one of
+				// the same extent as it is, and refuses another extent
+				if st.absent {
+					if out.Err {
+						return false, st
+					}
+					return true, h5State{shape: in.Shape, vals: make([]float64, product(in.Shape))}
+				}
+				if eqInts(in.Shape, st.shape) {
+					return !out.Err, st
+				}
+				return out.Err, st
 			}
 			if st.absent {
 				// nothing but a Write can succeed on a dataset that does not exist yet
@@ -1088,7 +1101,16 @@ func h5Concurrent[T num, A arr[T, A]](k kit[T, A], rc *RunCtx, o *Outcome, ctl *
 	for c := 0; c < nClients; c++ {
 		for j := 0; j < opsPer; j++ {
 			d := dss[w.Choose(len(dss))]
-			switch w.Choose(6) {
+			switch w.Choose(7) {
+			case 6:
+				sh := d.shape
+				if w.Choose(6) == 5 {
+					sh = append(append([]int(nil), d.shape...), 2) // another extent: refused where the dataset exists
+				}
+				if absent[d.path] && len(sh) != len(d.shape) {
+					sh = d.shape // (a dataset that is yet to be created gets the extent every client expects)
+				}
+				plans[c] = append(plans[c], h5In{Op: "create", Path: d.path, Shape: sh})
 			case 0:
 				plans[c] = append(plans[c], h5In{Op: "write", Path: d.path, Shape: d.shape, Vals: uniq(product(d.shape))})
 			case 1, 2:
@@ -1150,6 +1172,8 @@ func h5Concurrent[T num, A arr[T, A]](k kit[T, A], rc *RunCtx, o *Outcome, ctl *
 					ev := h5Event{Client: c + 1, In: in, Call: simrt.NextSeq()}
 					ref := refOf(k, in.Path, in.Sel)
 					switch in.Op {
+					case "create":
+						ev.Out.Err = ref.Create(in.Shape, T(0), false) != nil
 					case "write":
 						ev.Out.Err = ref.Write(makeSource(k, 0, in.Shape, in.Vals, nil)) != nil
 					case "writeslice":
